@@ -27,7 +27,7 @@ from fractions import Fraction
 import numpy as np
 
 PROP = 'C08'
-TARGETS = ['T9a', 'T9b', 'T9c', 'T9d', 'T9e', 'T9f', 'T9g', 'T9h', 'T9i', 'T9j', 'T9k', 'T9l', 'T9m', 'T9n', 'T10a', 'T10b', 'T10c', 'T10d']
+TARGETS = ['T9a', 'T9b', 'T9c', 'T9d', 'T9e', 'T9f', 'T9g', 'T9h', 'T9i', 'T9j', 'T9k', 'T9l', 'T9m', 'T9n', 'T9o', 'T10a', 'T10b', 'T10c', 'T10d']
 LEAN_MODULES = ['HdVerif.Props.C08']
 MODEL_MODULES = ['HdVerif.Model.Volume', 'HdVerif.Model.VolumeMore']
 NAMESPACE = 'HdVerif.C08'
@@ -736,6 +736,17 @@ def oracle_step(ctx, case, vin, vout, op, exact, site):
             fail('pad_or_crop keeps the wrong number of voxels', retained=n_ret, want=want_ret)
     if kind in ('crop_to', 'getitem') and n_ret != int(np.prod(sp_out)):
         fail('output of a cropping operation contains voxels that are not input voxels', retained=n_ret)
+    # ---- pad: the documented meaning of the width forms - `before` voxels in front, `after` behind, per axis
+    if kind == 'pad' and _valid_width(op['width']):
+        w = op['width']
+        full = [[w, w]] * 3 if isinstance(w, int) else ([list(w)] * 3 if isinstance(w[0], int) else
+                                                         [[p[0], p[0]] if len(p) == 1 else list(p) for p in w])
+        want_shape = [n + b + a for n, (b, a) in zip(sp_in, full)]
+        origin = vout.map_indices_to_reference(np.array([[b for b, _ in full]]))[0]
+        same = np.array_equal(origin, a_in[:3, 3]) if exact else np.allclose(origin, a_in[:3, 3], rtol=2.0 ** -40, atol=2.0 ** -36)
+        if list(sp_out) != want_shape or not same:
+            fail('pad did not put `before` voxels in front and `after` voxels behind each axis', width=w,
+                 got_shape=list(sp_out), want_shape=want_shape)
     # ---- map_indices_to_reference agrees with the affine (the observation named in the property)
     mi = vout.map_indices_to_reference(jout[: min(len(jout), 64)])
     if exact:
